@@ -730,6 +730,19 @@ impl Disk {
         let parent_path: String = path_nodes.iter().map(|s| "/".to_string() + s).collect::<Vec<String>>().concat();
         return Ok([parent_path,name]);
     }
+    /// Some operations need a path that names one ordinary entry: not a wildcard pattern
+    /// (which `goto_path` passes through), and not the `.` or `..` entry inside a directory.
+    fn verify_single_entry(finfo: &FileInfo) -> STDRESULT {
+        if finfo.wildcard.len()>0 {
+            error!("wildcards are not allowed here");
+            return Err(Box::new(Error::Syntax));
+        }
+        if finfo.name=="." || finfo.name==".." {
+            error!("the dot entries of a directory cannot be changed");
+            return Err(Box::new(Error::Syntax));
+        }
+        Ok(())
+    }
     /// Goto the specified path and return tuple (maybe_parent,file).
     /// * if file is the root directory, maybe_parent==None
     /// * if the path contains a wildcard in the last node, the returned file contains the pattern, not the matches
@@ -1135,10 +1148,7 @@ impl super::DiskFS for Disk {
     }
     fn delete(&mut self,path: &str) -> STDRESULT {
         let (maybe_parent,finfo) = self.goto_path(path)?;
-        if finfo.wildcard.len()>0 {
-            error!("wildcards are not allowed here");
-            return Err(Box::new(Error::Syntax));
-        }
+        Self::verify_single_entry(&finfo)?;
         // files and directories can be delete the same way, except for a directory we
         // need some additional checks first:
         if finfo.directory {
@@ -1187,6 +1197,7 @@ impl super::DiskFS for Disk {
     }
     fn lock(&mut self,path: &str) -> STDRESULT {
         let (maybe_parent,finfo) = self.goto_path(path)?;
+        Self::verify_single_entry(&finfo)?;
         match maybe_parent {
             Some(parent) => {
                 let dir = self.get_directory(&parent.cluster1)?;
@@ -1205,6 +1216,7 @@ impl super::DiskFS for Disk {
     }
     fn unlock(&mut self,path: &str) -> STDRESULT {
         let (maybe_parent,finfo) = self.goto_path(path)?;
+        Self::verify_single_entry(&finfo)?;
         match maybe_parent {
             Some(parent) => {
                 let dir = self.get_directory(&parent.cluster1)?;
@@ -1224,6 +1236,7 @@ impl super::DiskFS for Disk {
     fn rename(&mut self,path: &str,name: &str) -> STDRESULT {
         self.ok_to_rename(path, name)?;
         let (maybe_parent,finfo) = self.goto_path(path)?;
+        Self::verify_single_entry(&finfo)?;
         match maybe_parent {
             Some(parent) => {
                 let dir = self.get_directory(&parent.cluster1)?;
@@ -1242,6 +1255,7 @@ impl super::DiskFS for Disk {
     }
     fn retype(&mut self,path: &str,new_type: &str,_sub_type: &str) -> STDRESULT {
         let (maybe_parent,finfo) = self.goto_path(path)?;
+        Self::verify_single_entry(&finfo)?;
         if finfo.directory {
             error!("cannot retype directory");
             return Err(Box::new(Error::General));
